@@ -112,6 +112,13 @@ func loadEngine(repo, trustedDir string) (*Engine, error) {
 	for _, s := range cs.Specs {
 		e.specs[s.Name] = s
 	}
+	for _, sd := range cs.Specs {
+		dfx := &FnExec{e: e, c: newCtx()}
+		env := &Env{fx: dfx, pkg: e.tpkgs[sd.PkgPath]}
+		if err := dfx.resolveSpecRet(env, sd); err != nil {
+			e.errors = append(e.errors, err.Error())
+		}
+	}
 	for _, c := range cs.Funcs {
 		key, isIface, err := e.resolveContract(c)
 		if err != nil {
@@ -178,6 +185,65 @@ func (e *Engine) resolveContract(c *Contract) (string, bool, error) {
 	if tp == nil {
 		return "", false, fmt.Errorf("package %q not loaded", c.PkgPath)
 	}
+	if i := strings.Index(c.Name, "$"); i >= 0 {
+		// anonymous function N of a named function
+		parent := *c
+		parent.Name = c.Name[:i]
+		parent.Flags = map[string]string{}
+		pk, _, err := e.resolveContract(&parent)
+		if err != nil {
+			return "", false, err
+		}
+		c.ParentKey = pk
+		c.ParentRecv = c.Recv
+		return pk + c.Name[i:], false, nil
+	}
+	if c.Flags["funcfield"] != "" {
+		parts := strings.Split(c.Name, ".")
+		if len(parts) != 2 {
+			return "", false, fmt.Errorf("funcfield wants T.f")
+		}
+		tn, ok := tp.Scope().Lookup(parts[0]).(*types.TypeName)
+		if !ok {
+			return "", false, fmt.Errorf("no type %s in %s", parts[0], c.PkgPath)
+		}
+		st, ok := tn.Type().Underlying().(*types.Struct)
+		if !ok {
+			return "", false, fmt.Errorf("%s is not a struct", parts[0])
+		}
+		found := false
+		for i := 0; i < st.NumFields(); i++ {
+			if st.Field(i).Name() == parts[1] {
+				if _, ok := st.Field(i).Type().Underlying().(*types.Signature); ok {
+					found = true
+					c.FuncT = st.Field(i).Type()
+				}
+			}
+		}
+		if !found {
+			return "", false, fmt.Errorf("%s has no function field %s", parts[0], parts[1])
+		}
+		c.Trusted = true
+		if c.TrustedWhy == "" {
+			c.TrustedWhy = "contract on a user-supplied function stored in a field"
+		}
+		return "funcfield:" + c.PkgPath + "." + c.Name, false, nil
+	}
+	if c.Flags["functype"] != "" {
+		tn, ok := tp.Scope().Lookup(c.Name).(*types.TypeName)
+		if !ok {
+			return "", false, fmt.Errorf("no type %s in %s", c.Name, c.PkgPath)
+		}
+		if _, ok := tn.Type().Underlying().(*types.Signature); !ok {
+			return "", false, fmt.Errorf("%s is not a function type", c.Name)
+		}
+		c.FuncT = tn.Type()
+		c.Trusted = true
+		if c.TrustedWhy == "" {
+			c.TrustedWhy = "contract on a caller-supplied function value"
+		}
+		return "functype:" + c.PkgPath + "." + c.Name, false, nil
+	}
 	if c.Recv == "" {
 		obj := tp.Scope().Lookup(c.Name)
 		f, ok := obj.(*types.Func)
@@ -234,6 +300,31 @@ func (e *Engine) findFunction(c *Contract) *ssa.Function {
 	if f, ok := e.funcsByKey[c.Key]; ok {
 		return f
 	}
+	if i := strings.Index(c.Name, "$"); i >= 0 {
+		parent := *c
+		parent.Name = c.Name[:i]
+		parent.Key = c.ParentKey
+		pf := e.findFunction(&parent)
+		var fn *ssa.Function
+		if pf != nil {
+			cur := pf
+			ok := true
+			for _, part := range strings.Split(c.Name[i+1:], "$") {
+				n := 0
+				fmt.Sscanf(part, "%d", &n)
+				if n < 1 || n > len(cur.AnonFuncs) {
+					ok = false
+					break
+				}
+				cur = cur.AnonFuncs[n-1]
+			}
+			if ok {
+				fn = cur
+			}
+		}
+		e.funcsByKey[c.Key] = fn
+		return fn
+	}
 	tp := e.tpkgs[c.PkgPath]
 	sp := e.spkgs[c.PkgPath]
 	if tp == nil || sp == nil {
@@ -274,8 +365,32 @@ func (e *Engine) implementors(it types.Type) []int {
 		return nil
 	}
 	var out []int
+	genericIface := false
+	if n, ok := unalias(it).(*types.Named); ok && n.Origin().TypeParams().Len() > 0 {
+		genericIface = true
+	}
+	byNames := func(t types.Type) bool {
+		ms := types.NewMethodSet(t)
+		for i := 0; i < iface.NumMethods(); i++ {
+			m := iface.Method(i)
+			if ms.Lookup(m.Pkg(), m.Name()) == nil {
+				return false
+			}
+		}
+		return iface.NumMethods() > 0
+	}
 	for _, nt := range e.allNamed {
 		if _, isI := nt.Underlying().(*types.Interface); isI {
+			continue
+		}
+		if genericIface {
+			// instantiation-insensitive approximation: all methods present by name
+			if byNames(nt) {
+				out = append(out, e.tt.id(nt))
+			}
+			if byNames(types.NewPointer(nt)) {
+				out = append(out, e.tt.id(types.NewPointer(nt)))
+			}
 			continue
 		}
 		if nt.TypeParams().Len() > 0 {
@@ -373,4 +488,19 @@ func (e *Engine) findEscaping() {
 			}
 		}
 	}
+}
+
+// keyOfFunction: contract key of an SSA function, including anonymous functions (parent$N)
+func keyOfFunction(fn *ssa.Function) string {
+	if fn.Object() != nil {
+		return funcKeyOf(fn.Object().(*types.Func))
+	}
+	if p := fn.Parent(); p != nil {
+		for i, a := range p.AnonFuncs {
+			if a == fn {
+				return fmt.Sprintf("%s$%d", keyOfFunction(p), i+1)
+			}
+		}
+	}
+	return fn.String()
 }
